@@ -12,7 +12,7 @@ from core import Stream, hexs, unhex
 
 ID = "C17"
 DESIGN_REF = "DESIGN.md section 5, C17"
-LEAN_TARGETS = ["PV.C17.Thm"]
+LEAN_TARGETS = ["PV.C17.Thm", "PV.C17.ReprRT"]
 DRIVER = "drv_c17"
 HARNESS = {"bin": "pvh_c17", "features": "default"}
 THEOREMS = [
@@ -24,6 +24,19 @@ THEOREMS = [
     "PV.C17.isInteger_iff_integer",
     "PV.C17.repr_roundtrip_partial",
     "PV.C17.repr_roundtrip_integer",
+    # the round trip without hypotheses (ShortestRT.lean, OfRatRT.lean, ReprRT.lean)
+    "PV.C17.repr_roundtrip",
+    "PV.C17.repr_shape_full",
+    "PV.C17.decFacts_all",
+    "PV.C17.shortest_roundtrip",
+    "PV.C17.fracDigits_of_not_integer",
+    "PV.Dec.shortestInt_mem",
+    "PV.Dec.shortest_mem",
+    "PV.Dec.ofDecimal_of_mem",
+    "PV.Dec.ofRat_of_mem",
+    "PV.Dec.ilog2_spec",
+    "PV.Dec.ilog2_unique",
+    "PV.Dec.roundHalfEven_eq",
     "PV.C17.hex_eq_py",
     "PV.C17.hex_roundtrip_partial",
     "PV.C17.hex_roundtrip_zero_inf",
@@ -66,14 +79,17 @@ TRUSTED = [
     "tools/props/c17.py (generators, oracle), harness/src/bin/pvh_c17.rs, lean/Drv/C17.lean",
 ]
 PARTIAL = [
-    "repr_roundtrip_partial (all finite doubles) assumes PV.C17.DecFacts for doubles that are NOT integer-valued in "
-    "fixed notation: the shortest digits round back through ofDecimal, and a non-integer has digits after the "
-    "point (FracDigits, also the hypothesis of repr_shape's fixed branch). These are facts about digit generation "
-    "(PV.Dec), evaluated by the driver on every sampled finite double of the run (coverage.dec_facts: hold on all), "
-    "not proved for all 2^64 patterns. Integer-valued doubles in the fixed range round-trip unconditionally "
-    "(repr_roundtrip_integer, repr_integer_dot_zero). Proved for all doubles: the notation decision, the layouts, "
-    "the exponent suffix and that the parser (trim, underscore stripping, grammar scanner, exponent reader) inverts "
-    "each layout.",
+    "repr_roundtrip (parse_str(to_string x) = x for EVERY finite double) and repr_shape_full carry no hypothesis any "
+    "more: PV.C17.DecFacts is the theorem decFacts_all. Its two parts are proved for all 2^64 patterns: "
+    "shortest_mem (the digits chosen by PV.Dec.shortest denote a decimal inside the rounding interval of the double; "
+    "the search never runs out of fuel because at 17 significant digits a candidate always exists), "
+    "ofDecimal_of_mem / ofRat_of_mem (PV.Dec.ofDecimal is correctly rounded: every decimal inside the rounding interval "
+    "of a finite non-zero double, end points included iff the mantissa is even, with the narrower lower half interval "
+    "at a power of two, parses to that double - subnormals, the smallest normal and f64::MAX included), and "
+    "fracDigits_of_not_integer (no integer lies in the rounding interval of a non-integer double). "
+    "repr_roundtrip_partial (with the hypothesis) is kept as the string-layer lemma. DecFacts is still evaluated by the "
+    "driver on every sampled finite double as a cross-check of the proof (coverage.dec_facts). What this is relative to: "
+    "PV.Dec.shortest / ofDecimal as the contracts of Rust's {:e} and of lexical-parse-float (sampled, see below).",
     "'is a shortest such rendering' is inherited from Rust's {:e}/Display (Grisu/Dragon) = PV.Dec.shortest; minimality "
     "of PV.Dec.shortest is not proved in Lean, it is compared with CPython's repr digit count on every sampled double.",
     "hex_roundtrip and hex_eq_py are proved for every double, relative to the model of hexf-parse's scanner and "
@@ -93,8 +109,9 @@ TECHNIQUE = ("Lean 4 theorems over a hand-written model built on exact big-Nat b
              "boundary-directed and exhaustive-small-scope correspondence with the real crate, judged by CPython")
 LEVEL_TEXT = ("Machine-checked Lean 4 theorems over an executable model of literal/src/float.rs built on exact big-Nat "
               "binary<->decimal arithmetic: underscore stripping accepts exactly 'underscores between digits' (all "
-              "texts); repr has Python's shape and special names; parse_str inverts every repr layout (round trip, "
-              "conditional on per-double digit-generation facts that the run evaluates on every sampled double); "
+              "texts); repr has Python's shape and special names; parse_str(to_string x) = x for every finite double with no "
+              "hypothesis (the shortest digits lie in the double's rounding interval, and the correctly rounded decimal "
+              "parser maps every decimal of that interval back to the double - both proved for all bit patterns); "
               "to_hex equals float.hex() for every double and from_hex(to_hex x) = x for every non-NaN double (through "
               "a line-by-line model of hexf-parse, with ofRat proved exact on representable values); the exponent "
               "suffix is sign + >= 2 digits and reads back; "
@@ -712,16 +729,17 @@ def streams(ctx):
     except Exception as e:       # never let the reference cross-check break the property check
         ctx.notes.append(f"spec validation could not run: {e!r}")
 
-    # ---- hypotheses of repr_roundtrip_partial / repr_shape, evaluated by the model on every sampled finite double
+    # ---- DecFacts (a theorem since decFacts_all; formerly the hypothesis of repr_roundtrip_partial / repr_shape) and
+    # HexFacts, still evaluated by the model on every sampled finite double as a cross-check
     try:
         fin = [b for b in _dedup(corpus_vals + sweep + p10 + p2 + ints + rnd + list(NEAR_ONE)) if is_finite_bits(b)]
         got = core.run_lines([core.driver_path(DRIVER)], [f"decfacts {b}" for b in fin], jobs=4 if q else 16)
         failing = [b for b, g in zip(fin, got) if g != "ok"]
         ctx.extra["dec_facts"] = {"doubles": len(fin), "failing": len(failing), "failing_bits": failing[:10],
-                                  "note": "PV.C17.DecFacts (hypothesis of repr_roundtrip_partial) decided by drv_c17; "
-                                          "it must hold on every double"}
+                                  "note": "PV.C17.DecFacts (proved for every finite double: decFacts_all) decided by drv_c17 "
+                                          "as a cross-check; it must hold on every double"}
         if failing:
-            ctx.notes.append(f"DEC FACTS: hypothesis of repr_roundtrip_partial fails on doubles {failing[:5]}")
+            ctx.notes.append(f"DEC FACTS: PV.C17.DecFacts (a theorem) evaluates to false on doubles {failing[:5]}")
         nz = [b for b in fin if b & (SIGN - 1)]
         got = core.run_lines([core.driver_path(DRIVER)], [f"hexfacts {b}" for b in nz], jobs=4 if q else 16)
         hfail = [b for b, g in zip(nz, got) if g != "ok"]
